@@ -25,10 +25,14 @@
      transition each (PUint, PI3, LExpBody); taking that lock is its own transition before.
    * thread-local work (loop counters, errno, recursive_count which only the owner touches,
      ghost counters) is merged into the adjacent shared access.
-   * `aintr = true` is an IDEALISATION switch: thread_interrupt's branch for a non-SLEEPING target
-     (`out:` 1482-1485: read state, read error_number, write error_number — three unlocked
-     accesses) executes as ONE transition.  `aintr = false` is the code as written.  On ONE vCPU
-     both coincide (photon threads are not pre-empted).                                          *)
+   * thread_interrupt's branch for a non-SLEEPING target (`out:`; after the F33 repair, /repo commit
+     34f175e): `state` was read at PI0 / PI2 (a local), then `th->error_number == 0` is read (PIo1),
+     then `__atomic_compare_exchange_n(&th->error_number, &expected /*0*/, error_number)` (PIo2):
+     THREE transitions, the last one an atomic compare-and-swap from 0 — it may land on a target
+     that is no longer READY.  This is the `aintr = false` arm = the code as written.
+     `aintr = true` is an IDEALISATION switch kept from before the repair: the whole branch
+     (state test, error_number test, store) executes as ONE transition.  No theorem needs it any
+     more (they hold for both arms); on ONE vCPU both coincide (photon threads are not pre-empted). *)
 From Coq Require Import ZArith List Bool Arith.
 From PV Require Import Base.U64.
 Import ListNotations.
@@ -102,7 +106,7 @@ Inductive pc_t : Type :=
 | PI2 (x : tid) (e : Z)                   (* state = th->state  (locked) *)
 | PI3 (x : tid) (e : Z)                   (* prelocked_thread_interrupt(th, e) *)
 | PIo1 (x : tid) (e : Z) (lk : bool)      (* out: th->error_number == 0 ?   (state was READY) *)
-| PIo2 (x : tid) (e : Z) (lk : bool)      (* out: th->error_number = e *)
+| PIo2 (x : tid) (e : Z) (lk : bool)      (* out: CAS(&th->error_number, 0, e) *)
 | PIrel (x : tid)                         (* ~SCOPED_LOCK *)
 (* thread_usleep 1448-1457 *)
 | PZ0 (dl : Z)                            (* timeout.expired()  (reads now) *)
@@ -345,7 +349,9 @@ Definition tstep (s : state) (t : tid) : option state :=
   | PI3 x e => Some (goto (prelocked_interrupt s t x e) t (PIrel x))
   | PIo1 x e lk =>
       if err (th s x) =? 0 then Some (goto s t (PIo2 x e lk)) else Some (goto s t (intr_fin x lk))
-  | PIo2 x e lk => Some (goto (setT s x (set_err (th s x) e)) t (intr_fin x lk))
+  | PIo2 x e lk =>                                                              (* the CAS of the F33 repair *)
+      if err (th s x) =? 0 then Some (goto (setT s x (set_err (th s x) e)) t (intr_fin x lk))
+      else Some (goto s t (intr_fin x lk))
   | PIrel x => Some (goto (setT s x (set_tlock (th s x) None)) t (PRet ROther 0 0))
   (* thread_usleep *)
   | PZ0 dl => if expired (now s) dl then Some (goto s t (PY1 YSleep)) else Some (goto s t (PZenq dl))
